@@ -155,6 +155,46 @@ theorem supp_is_box (kvs : Mesh) (lv : Nat) (f c : Idx) :
   rw [mem_support_singleton]
   exact mem_cart
 
+/-! ## the space is determined by its refined cells -/
+
+/-- **history independence.**  Two reachable spaces over the same coarse mesh with the same number of
+levels and the same *sets* of deactivated (refined) cells on every level have the same sets of
+active cells, active functions and deactivated functions on every level — whatever the histories,
+mark containers, multiplicities of marks, disparities or `truncate` flags that produced them. -/
+theorem state_determined_by_deactivated (kvs : Mesh) (d1 d2 : Option Nat) (hg : GoodMesh kvs)
+    {s1 s2 : HSpace} (h1 : Reachable kvs d1 s1) (h2 : Reachable kvs d2 s2)
+    (hL : s1.numlevels = s2.numlevels)
+    (hD : ∀ lv c, c ∈ (s1.level lv).deact ↔ c ∈ (s2.level lv).deact) (lv : Nat) (hlv : lv < s1.numlevels) :
+    (∀ c, c ∈ (s1.level lv).act ↔ c ∈ (s2.level lv).act) ∧
+    (∀ f, f ∈ (s1.level lv).actfun ↔ f ∈ (s2.level lv).actfun) ∧
+    (∀ f, f ∈ (s1.level lv).deactfun ↔ f ∈ (s2.level lv).deactfun) := by
+  have t1 := tiling kvs d1 hg h1
+  have t2 := tiling kvs d2 hg h2
+  have hΩ : ∀ c, ((c ∈ (s1.level lv).act ∨ c ∈ (s1.level lv).deact) ↔
+      (c ∈ (s2.level lv).act ∨ c ∈ (s2.level lv).deact)) := by
+    intro c
+    cases lv with
+    | zero => rw [t1.1 c, t2.1 c]
+    | succ i => rw [t1.2.1 i hlv c, t2.2.1 i (by omega) c, hD i (parTp c)]
+  have hact : ∀ c, c ∈ (s1.level lv).act ↔ c ∈ (s2.level lv).act := by
+    intro c
+    constructor
+    · intro hc
+      rcases (hΩ c).1 (Or.inl hc) with h | h
+      · exact h
+      · exact absurd ((hD lv c).2 h) (t1.2.2.1 lv c hc)
+    · intro hc
+      rcases (hΩ c).2 (Or.inl hc) with h | h
+      · exact h
+      · exact absurd ((hD lv c).1 h) (t2.2.2.1 lv c hc)
+  refine ⟨hact, ?_, ?_⟩
+  · intro f
+    rw [(selection_rule kvs d1 hg h1 lv hlv f).1, (selection_rule kvs d2 hg h2 lv (by omega) f).1]
+    simp only [hact, hD]
+  · intro f
+    rw [(selection_rule kvs d1 hg h1 lv hlv f).2, (selection_rule kvs d2 hg h2 lv (by omega) f).2]
+    simp only [hact, hD]
+
 /-! ## canonical order -/
 
 /-- **canonical order.** After any history the flat listings `active_functions(flat=True)` and
